@@ -74,9 +74,11 @@ pub fn fit_watched(x: &Mat, y: &[f64], cfg: &Cfg, max_iter: usize, xp: &Mat, cpu
                 let wall = t0.elapsed().as_millis() as u64;
                 match task.as_ref().and_then(|t| thread_cpu_ms(t)) {
                     Some(c) if c >= cpu_ms => return FitOut::Hang(c),
-                    // safety nets: no /proc (fall back to wall time), or a thread that is starved for a minute
+                    // on a starved machine: 100x the normal CPU need and 8 s of wall time are enough
+                    // (stays below the driver's per-case deadline)
+                    Some(c) if c >= cpu_ms / 5 && wall >= 8_000 => return FitOut::Hang(c),
+                    // no /proc: fall back to wall time
                     None if wall >= 4 * cpu_ms => return FitOut::Hang(wall),
-                    Some(_) if wall >= 120_000 => return FitOut::Hang(wall),
                     _ => {}
                 }
             }
